@@ -249,9 +249,9 @@ Definition c06_timer_step (hards : list (N * bool)) (pre : ostate) (st : ostep) 
    keeps a link to a placeholder that is gone.
    652: the real ask of an in-flight swap removed by the shim: the placeholder keeps a link to an ask that is gone *)
 Definition inflight_reals (ap : oapp) (kind : N) : list (N * N * N) :=
-  flat_map (fun r => if negb (oa_ph r) && negb (oa_release r =? 0) then [(ap_id ap, oa_release r, kind)] else []) (ap_requests ap).
+  flat_map (fun r => if negb (oa_ph r) && negb (oa_release r =? 0) then [(ap_id ap, oa_release r, kind); (ap_id ap, oa_key r, kind)] else []) (ap_requests ap).
 Definition inflight_phs (ap : oapp) (kind : N) : list (N * N * N) :=
-  flat_map (fun ph => if oa_ph ph && negb (oa_release ph =? 0) then [(ap_id ap, oa_release ph, kind)] else []) (ap_allocs ap).
+  flat_map (fun ph => if oa_ph ph && negb (oa_release ph =? 0) then [(ap_id ap, oa_release ph, kind); (ap_id ap, oa_key ph, kind)] else []) (ap_allocs ap).
 
 Definition new_poison (pre : ostate) (st : ostep) : list (N * N * N) :=
   match st_op st with
@@ -264,14 +264,14 @@ Definition new_poison (pre : ostate) (st : ostep) : list (N * N * N) :=
           else
           (if ty =? TT_PlaceholderReplaced then [] else
            match find_alloc (ap_allocs ap) k with
-           | Some ph => if oa_ph ph && negb (oa_release ph =? 0) then [(a, oa_release ph, 650)] else []
+           | Some ph => if oa_ph ph && negb (oa_release ph =? 0) then [(a, oa_release ph, 650); (a, k, 650)] else []
            | None => []
            end) ++
           (match find_alloc (ap_allocs ap) k with
            | Some _ => []
            | None =>
                match find_alloc (ap_requests ap) k with
-               | Some r => if negb (oa_ph r) && negb (oa_release r =? 0) then [(a, oa_release r, 652)] else []
+               | Some r => if negb (oa_ph r) && negb (oa_release r =? 0) then [(a, oa_release r, 652); (a, k, 652)] else []
                | None => []
                end
            end)
@@ -366,8 +366,9 @@ Definition gst_same (live ledgers : bool) (nodes : list N) (M V : gst) : bool :=
     forallb (fun n => eq_on types3 (gs_nodeuse M n) (gs_nodeuse V n)) nodes)).
 
 (* announcements of the step that concern the application *)
+(* releases announced by the preemptor (PREEMPTED_BY_SCHEDULER) are outside the gang model *)
 Definition obs_rel (a : N) (evs : list oevent) : list (N * N) :=
-  flat_map (fun e => match e with ERelease k a' ty => if a' =? a then [(k, ty)] else [] | _ => [] end) evs.
+  flat_map (fun e => match e with ERelease k a' ty => if (a' =? a) && negb (ty =? TT_Preempted) then [(k, ty)] else [] | _ => [] end) evs.
 Definition obs_new (a : N) (evs : list oevent) : list (N * N) :=
   flat_map (fun e => match e with ENewAlloc k a' n _ _ => if a' =? a then [(k, n)] else [] | _ => [] end) evs.
 Definition mod_rel (evs : list gout) : list (N * N) := flat_map (fun e => match e with GRel k ty => [(k, ty)] | _ => [] end) evs.
@@ -404,9 +405,10 @@ Definition model_ops (pre : ostate) (st : ostep) (a : N) : option (list gop) :=
           let alloc_ops := flat_map (fun e => match e with
                                    | ENewAlloc k a' n _ ph =>
                                        if a' =? a then
-                                         [GAllocate k n (ph && negb (ap_state ap0 =? ST_Running) &&
-                                                         match find_anyapp (st_obs st) a with
-                                                         | Some ap => ap_state ap =? ST_Running | None => false end)]
+                                         (* full: the allocated placeholders now equal the placeholder ask of the
+                                            application, visible as a state change caused by runApplication *)
+                                         [GAllocate k n (ph && match find_anyapp (st_obs st) a with
+                                                               | Some ap => negb (ap_state ap =? ap_state ap0) | None => false end)]
                                        else []
                                    | _ => [] end) (st_events st) in
           let swap_ops := flat_map (fun phk =>
